@@ -1,5 +1,5 @@
 """C13 - pseudonyms are a stable, collision-free, component-wise function of the name."""
-import random, re, itertools
+import random, re, itertools, json, os, subprocess, tempfile
 from vlib.run import *
 
 ALPHA40 = 'abcdefghijklmnopqrstuvwxyz0123456789_-$ '
@@ -99,8 +99,29 @@ def run(chk, replay=None):
         seen[o] = w
     chk.streams.append({'stream': 'dictionary injectivity through HashName', 'names': len(words)})
     chk.dist('dictionary_names', len(words)); chk.dist('generated_names', len(names)); chk.dist('replacements', len(repls))
+    # line level: the same database / collection named through every verb the tool declares gets ONE pseudonym (applied once)
+    verbs = ['aggregate', 'insert', 'find', 'update', 'delete', 'count', 'findAndModify', 'findOneAndDelete', 'replace', 'findOneAndReplace', 'findOneAndUpdate', 'getIndexes', 'countDocuments', 'collection']
+    cfgw = Cfg(nss=True)
+    for db, coll in (('Dbq7z', 'Cq9w'), ('shop', 'orders.archive'), ('déb', 'cöll')):
+        want = {}
+        for nm in (db, coll, db + '.' + coll):
+            want[nm] = unb64(run_harness([cfgw.harness_req(), {"op": "hash", "s": b64(nm.encode())}])[1]['o']).decode()
+        ls = []
+        for vb in verbs:
+            cmd = {vb: coll, '$db': db}
+            if vb == 'collection': cmd = {'getMore': 5, 'collection': coll, '$db': db}
+            ls.append(json.dumps({"t": {"$date": "2020-01-01T00:00:00.000+00:00"}, "s": "I", "c": "COMMAND", "id": 1, "ctx": "c", "msg": "Slow query", "attr": {"ns": db + '.' + coll, "command": cmd}}, ensure_ascii=False).encode())
+        for vb, l, (io, mo) in zip(verbs, ls, run_lines(cfgw, ls)):
+            chk.count(); chk.traces += 1
+            if io != mo: chk.disagree('namespace line', {'line': l.decode()}, str(io)[:200], str(mo)[:200])
+            if not isinstance(io, bytes): continue
+            t = json.loads(io)
+            got = {'coll': t['attr']['command'].get(vb), 'db': t['attr']['command'].get('$db'), 'ns': t['attr'].get('ns')}
+            if got['coll'] != want[coll] or got['db'] != want[db] or got['ns'] != want[db + '.' + coll]:
+                chk.violate('the same name gets different pseudonyms depending on where it stands', {'verb': vb, 'db': db, 'coll': coll, 'got': got, 'expected': {'coll': want[coll], 'db': want[db], 'ns': want[db + '.' + coll]}}, tags=['positions'])
+    chk.streams.append({'stream': 'one name through every namespace-bearing verb', 'lines': 3 * len(verbs)})
     # through the CLI: two separate processes, flag wiring (-w) end to end
-    import subprocess, json, os, tempfile
+    pass
     line = json.dumps({"t": {"$date": "2020-01-01T00:00:00.000+00:00"}, "s": "I", "c": "NETWORK", "id": 1, "ctx": "c", "msg": "m", "attr": {"ns": "mydb.orders.archive"}})
     outs = []
     for _ in range(2):
